@@ -57,7 +57,7 @@ def judge(desc, acc, ctx, route="mem", check="gen"):
         else:
             d = ctx.tmpdir("c02")
             try:
-                got = sut.create_file(desc, route, d)
+                got = sut.create_cli(desc, route[4:], d) if route.startswith("cli-") else sut.create_file(desc, route, d)
             finally:
                 shutil.rmtree(d, ignore_errors=True)
     except boot.HarnessError:
@@ -362,9 +362,11 @@ def sweep_cases():
 def plan(ctx):
     specs = [{"kind": "sweep", "mod": 4, "rem": r, "guard_off": r == 0} for r in range(4)]
     n = 12 if not ctx.thorough else 16
-    per = 300 if not ctx.thorough else 9000
+    per = 220 if not ctx.thorough else 9000
     for i in range(n):
         specs.append({"kind": "gen", "i": i, "n": per, "depth": 1 + (i % 3 == 0), "route": "mem" if i % 4 else ("json" if i % 8 == 0 else "yaml")})
+    for i, r in enumerate(("cli-json", "cli-yaml")):
+        specs.append({"kind": "gen", "i": 50 + i, "n": 12 if not ctx.thorough else 150, "depth": 1, "route": r})
     return specs
 
 
@@ -420,6 +422,6 @@ def coverage_extra(ctx, m):
 
 def finalize(ctx, m, ev):
     c = m["counters"]
-    for need in ("route:mem", "route:json", "route:yaml", "boundary", "nesting:2"):
+    for need in ("route:mem", "route:json", "route:yaml", "route:cli-json", "route:cli-yaml", "boundary", "nesting:2"):
         if not c.get(need):
             raise boot.HarnessError(f"interesting class {need} is empty")
